@@ -4,6 +4,7 @@
 package core
 
 import (
+	"math"
 	"bytes"
 	"encoding/base64"
 	"encoding/json"
@@ -93,6 +94,24 @@ type TV struct {
 }
 
 var ValKinds = []string{VInt, VString, VBytes, VStruct, VLong, VIface, VPtr, VNil, VTags}
+
+// VFloat: float64 values including both zeros. The library decides with reflect.DeepEqual whether an Insert changes anything, so
+// writing -0 over +0 (or the reverse) is a no-op although the two encode differently; the model follows that rule (SameVal), and
+// values read back are compared bit for bit. Only the checks that name it in their value kinds use it.
+const VFloat = "float"
+
+// ValKindsWithFloat is ValKinds plus VFloat.
+var ValKindsWithFloat = append(append([]string{}, ValKinds...), VFloat, VFloat)
+
+var floatVals = []float64{0, math.Copysign(0, -1), 0.5, -1.5, 1e21, 1e-7, -1, 3}
+
+// SameVal reports whether value numbers a and b are the same value as far as Insert/Delete are concerned (reflect.DeepEqual).
+func (c Config) SameVal(a, b int) bool {
+	if a == b || c.Val == VNil {
+		return true
+	}
+	return c.Val == VFloat && reflect.DeepEqual(c.MakeVal(a), c.MakeVal(b))
+}
 
 // SI is a struct value whose static type is comparable but whose dynamic contents are not.
 type SI struct {
@@ -417,6 +436,8 @@ func (c Config) ZeroVal() interface{} {
 		return (*int)(nil)
 	case VNil:
 		return nil
+	case VFloat:
+		return float64(0)
 	}
 	panic("bad value kind " + c.Val)
 }
@@ -428,6 +449,11 @@ func (c Config) MakeVal(n int) interface{} {
 		return n
 	case VNil:
 		return nil
+	case VFloat:
+		if n >= 0 && n < len(floatVals) {
+			return floatVals[n]
+		}
+		return float64(n) + 0.25
 	case VString:
 		if n%4 == 3 {
 			// characters that JSON escapes (<, >, &), quotes and a non-ASCII rune
@@ -695,4 +721,11 @@ func (c Config) buildPool() []interface{} {
 }
 
 // EqualVal compares two values of the configuration's value type.
-func EqualVal(a, b interface{}) bool { return reflect.DeepEqual(a, b) }
+func EqualVal(a, b interface{}) bool {
+	if fa, ok := a.(float64); ok {
+		// bit for bit: +0 and -0 are different values with different encodings
+		fb, ok := b.(float64)
+		return ok && math.Float64bits(fa) == math.Float64bits(fb)
+	}
+	return reflect.DeepEqual(a, b)
+}
